@@ -124,6 +124,9 @@ def docs_stream(ctx):
         "let\n  inherit v;\nin\n",
         # two-hop chain whose middle binding sits in an OUTER layer while the final name is also bound further in
         "let\n  w = v;\n  v = \"outer\";\nin\nlet\n  v = \"inner\";\nin\n",
+        # shadowing that re-declares the same text: layers with equal contents are still two layers
+        "let\n  v = \"1\";\nin\nlet\n  v = \"1\";\nin\n",
+        "let\n  v = \"1\";\n  w = v;\nin\nlet\n  u = 2;\nin\nlet\n  v = \"1\";\n  w = v;\nin\n",
     ]
     bodies = [
         ("{\n  version = v;\n  name = \"x\";\n}", ["version"]),
@@ -136,7 +139,12 @@ def docs_stream(ctx):
         ("rec {\n  a = w;\n  v = \"inner-rec\";\n}", ["a"]),
     ]
     wrappers = [("bare", "{S}"), ("lambda", "{ pkgs }:\n{S}"), ("lambda-v", "{ v }:\n{S}"),
-                ("with-lit", "with { v = \"7\"; };\n{S}"), ("call", "pkgs.mk {S}")]
+                ("with-lit", "with { v = \"7\"; };\n{S}"), ("call", "pkgs.mk {S}"),
+                # nested `with`: the inner environment shadows the outer one, both are visible
+                ("with-lit-nested", "with { v = \"7\"; };\nwith { w = \"8\"; };\n{S}"),
+                ("with-lit-nested-rev", "with { w = \"8\"; };\nwith { v = \"7\"; };\n{S}"),
+                ("with-lit-shadow", "with { v = \"7\"; w = \"6\"; };\nwith { v = \"8\"; };\n{S}"),
+                ("with-lit-chain", "with { v = w; };\nwith { w = \"8\"; };\n{S}")]
     for (wn, wt), lay, (body, paths) in itertools.product(wrappers, layer_opts, bodies):
         if wn == "call":
             text = lay + wt.replace("{S}", body)
@@ -193,7 +201,8 @@ def observe(ctx: fw.Ctx, hists):
             to = [t for (k, t, _, _) in __import__("harness.layout", fromlist=["x"]).leaves_of(r.out)[0]]
             if tw != to:
                 key = {"clause": "defining-binding", "wrapper": h.info.get("wrapper"), "resolves": res[0],
-                       "binder": binder_kind(res), "separated": separated(res, before)}
+                       "binder": binder_kind(res), "separated": separated(res, before),
+                       "binder_value": binder_value(res)}
                 ctx.fail(key, {"doc": h.text, "ops": [list(x.op) for x in h.recs], "at": list(r.op), "before": before,
                                "output": r.out, "expected": want},
                          f"set {r.op[1]!r} through reference {name!r} on {before!r}: got {r.out!r}, expected {want!r}")
@@ -215,6 +224,15 @@ def separated(res, before) -> bool:
     return not (node is not None and tgt is not None and node.start_byte == tgt.start_byte and node.end_byte == tgt.end_byte)
 
 
+def binder_value(res):
+    """`reference` when the defining binding's own value is a name (the end of a chain whose last
+    name is bound nowhere), else `value`"""
+    if res[0] != "binding":
+        return res[0]
+    val = res[1].child_by_field_name("expression")
+    return "reference" if val is not None and val.type == "variable_expression" else "value"
+
+
 def binder_kind(res):
     if res[0] != "binding":
         return res[0]
@@ -226,7 +244,7 @@ def binder_kind(res):
 def run(ctx: fw.Ctx):
     ctx.extra["rule"] = (
         "documents whose binding values are references (into let layers at several depths with shadowing, rec and "
-        "plain sets, a literal `with` environment, inherit, chains) under 5 wrapper shapes x 5 let-layer shapes x 6 "
+        "plain sets, a literal `with` environment, inherit, chains) under 9 wrapper shapes (incl. nested literal `with`) x 8 let-layer shapes (incl. layers with equal contents) x 8 "
         "bodies, plus the random edit stream (15 % identifier values); oracle = Nix lexical scoping evaluated on the "
         "INPUT CST names the defining binding, whose value extent must be the only thing that changes"
     )
@@ -253,7 +271,7 @@ def run(ctx: fw.Ctx):
     hists += ep.build_stream(ctx, stride, nrand, 8, enum_offset=6)
     # The edit model's resolver sees the let layers and the `rec` self scope; scopes inherited from a
     # wrapper (a literal `with` environment) are C10's model: those documents go to the oracle only.
-    ec.correspond(ctx, [h for h in hists if h.info.get("wrapper") != "with-lit"])
+    ec.correspond(ctx, [h for h in hists if not str(h.info.get("wrapper")).startswith("with-lit")])
     observe(ctx, hists)
 
 
